@@ -61,6 +61,17 @@ theorem foldl_min_spec : ∀ (rest : List Nat) (t : Nat),
         · simp only [hc, if_false] at h2 ⊢; omega
       · exact h3 x hx
 
+theorem readLimited_eq : ∀ (chunks : List Bytes) (n : Nat), readLimited chunks n = chunks.flatten.take n := by
+  intro chunks
+  induction chunks with
+  | nil => intro n; simp [readLimited]
+  | cons c rest ih =>
+    intro n
+    unfold readLimited
+    by_cases h0 : n = 0
+    · subst h0; simp
+    · simp only [h0, if_false, List.flatten_cons, List.take_append, ih]
+
 /-- an 8193-byte body for the oversize witness -/
 def bigBody : Bytes := List.replicate 8193 0
 theorem bigBody_length : bigBody.length = 8193 := List.length_replicate ..
